@@ -61,3 +61,47 @@ def _preorder(node):
         for st in h.body:
             yield st
             yield from _preorder(st)
+
+
+# ----------------------------------------------------------------------------- boundary-aware source text
+import string as _string
+
+_ID = set(_string.ascii_letters + _string.digits + "_")
+_CLOSERS = "\n),]:}"
+
+
+class Text(str):
+    """unparsed source of a node.  `fragment in text` holds only where the fragment ends at an expression boundary:
+    what follows must close or separate (newline, `)`, `]`, `,`, `:`, `}`), never continue the expression
+    (`len(secret)` is not contained in `len(secret) - 1`, `chk` not in `chk or None`, `x` not in `xs`).
+    Use .loose(fragment) for a deliberate prefix/partial match."""
+
+    def loose(self, frag):
+        return str.__contains__(self, frag)
+
+    def __contains__(self, frag):
+        if not isinstance(frag, str) or not frag:
+            return str.__contains__(self, frag)
+        s = str(self)
+        start = 0
+        while True:
+            i = s.find(frag, start)
+            if i < 0:
+                return False
+            j = i + len(frag)
+            before = s[i - 1] if i else "\n"
+            after = s[j] if j < len(s) else "\n"
+            ok = True
+            if frag[0] in _ID and (before in _ID or before == "."):
+                ok = False
+            last = frag[-1]
+            if ok and (last in _ID or last in ")]'\"}"):
+                if after not in _CLOSERS:
+                    ok = False
+            if ok:
+                return True
+            start = i + 1
+
+
+def text(node):
+    return Text(ast.unparse(node))
